@@ -1,5 +1,7 @@
 import Pycoin.Model.Sign
 import Pycoin.Proofs.SignDer
+import Pycoin.Proofs.SignEval
+import Pycoin.Proofs.SignLink
 /-!
 C05 — property theorems about the signer model (`Model/Sign.lean`).
 
@@ -7,6 +9,8 @@ C05 — property theorems about the signer model (`Model/Sign.lean`).
   (BIP66 `IsValidSignatureEncoding` of the consensus specification), low-S (`IsLowDERSignature`'s lax parse + `s ≤ n/2`),
   and ends with the requested hash-type byte (with the fork-id bit on fork-id coins);
 * `C05_lowS_preserves_verify_partial`;
+* `C05_p2pkh_valid`, `C05_p2pk_valid`, `C05_p2wpkh_valid`, `C05_p2sh_p2wpkh_valid` (+ `_signed_valid` forms): `VerifyScript` of
+  `Spec/Consensus.lean` accepts the solutions, for every flag set under which signature and key pass the encoding rules;
 * `C05_sign_frame`, `C05_sign_frame_empty`: nothing but script and witness of the chosen, not yet valid inputs changes.
 -/
 namespace Pycoin.Sign
@@ -257,6 +261,132 @@ theorem C05_lowS_preserves_verify_partial (C : Crypto)
   unfold lowS; split
   · exact hneg Q z r s
   · rfl
+
+/-! ## the consensus specification accepts the solutions -/
+
+/-- **P2PKH.**  The consensus specification accepts `<sig> <key>` against `DUP HASH160 <hash160 key> EQUALVERIFY CHECKSIG`
+under every flag set for which signature and key pass the encoding rules, when `checkSig` accepts the signature for the key
+and the script code the specification computes. -/
+theorem C05_p2pkh_valid (chk : PChk) (sig key h : Bytes) (flags : Flags) (tx : TxCtx)
+    (hh : Hash.hash160 key = h) (hlen : h.length = 20)
+    (hs2 : 2 ≤ sig.length) (hs : sig.length ≤ 75) (hk2 : 2 ≤ key.length) (hk : key.length ≤ 75)
+    (hsig : checkSignatureEncoding sig flags = none) (hkey : checkPubKeyEncoding key flags .base = none)
+    (hchk : chk sig key (scriptCodeFor ⟨p2pkhScript h, flags, .base, tx⟩ ⟨[], [], [], 0, 0⟩ [sig]) .base = true) :
+    verifyScript chk (pushesOf [sig, key]) (p2pkhScript h) [] flags tx = none := by
+  apply verifyScript_plain chk _ _ flags tx [key, sig] [1]
+  · exact isPushOnly_pushes _ (by intro d hd; simp at hd; rcases hd with rfl | rfl <;> omega)
+  · have := evalScript_two_pushes chk sig key flags tx hs2 hs hk2 hk
+    simpa [pushesOf] using this
+  · exact evalScript_p2pkh chk sig key h flags tx .base hh hlen hsig hkey hchk
+  · simp [castToBool]
+  · exact p2pkh_not_witness h hlen
+  · exact p2pkh_not_p2sh h hlen
+
+/-- **P2PK.** -/
+theorem C05_p2pk_valid (chk : PChk) (sig key : Bytes) (flags : Flags) (tx : TxCtx)
+    (hs2 : 2 ≤ sig.length) (hs : sig.length ≤ 75) (hk33 : 33 ≤ key.length) (hk : key.length ≤ 75)
+    (hsig : checkSignatureEncoding sig flags = none) (hkey : checkPubKeyEncoding key flags .base = none)
+    (hchk : chk sig key (scriptCodeFor ⟨p2pkScript key, flags, .base, tx⟩ ⟨[], [], [], 0, 0⟩ [sig]) .base = true) :
+    verifyScript chk (pushesOf [sig]) (p2pkScript key) [] flags tx = none := by
+  apply verifyScript_plain chk _ _ flags tx [sig] [1]
+  · exact isPushOnly_pushes _ (by intro d hd; simp at hd; subst hd; omega)
+  · exact evalScript_one_push chk sig flags tx hs2 hs
+  · exact evalScript_p2pk chk sig key flags tx (by omega) hk hsig hkey hchk
+  · simp [castToBool]
+  · exact p2pk_not_witness key hk33 hk
+  · exact p2pk_not_p2sh key hk33
+
+/-- **P2WPKH.**  Empty scriptSig, witness `[sig, key]` against `OP_0 <hash160 key>`; needs the WITNESS flag (with it off the
+output is anyone-can-spend and CLEANSTACK fails) and a program that is not all zero bytes (`CastToBool`). -/
+theorem C05_p2wpkh_valid (chk : PChk) (sig key h : Bytes) (flags : Flags) (tx : TxCtx)
+    (hw : flags.witness = true)
+    (hh : Hash.hash160 key = h) (hlen : h.length = 20) (htrue : castToBool h = true)
+    (hs : sig.length ≤ 520) (hk : key.length ≤ 520)
+    (hsig : checkSignatureEncoding sig flags = none) (hkey : checkPubKeyEncoding key flags .witnessV0 = none)
+    (hchk : chk sig key (scriptCodeFor ⟨p2pkhScript h, flags, .witnessV0, tx⟩ ⟨[], [], [], 0, 0⟩ [sig]) .witnessV0 = true) :
+    verifyScript chk [] (witnessV0Script h) [sig, key] flags tx = none := by
+  unfold verifyScript verifyScriptM
+  have hpo : isPushOnly [] = true := by simp [isPushOnly, isPushOnlyAux]
+  have hvw : verifyWitnessProgramM (m := Id) (fun a b c d => chk a b c d) [sig, key] 0 h flags tx = none :=
+    verifyWitnessProgram_keyhash chk sig key h flags tx hh hlen hs hk hsig hkey hchk
+  simp only [evalScriptM_id, hpo]
+  simp only [Id.run, bind, pure]
+  rw [evalScript_empty]
+  simp only []
+  rw [evalScript_witnessV0Script chk [] h flags tx (by omega) (by omega) (by simp)]
+  simp only [hw, isWitnessProgram_v0 h (by omega) (by omega), htrue, witnessV0_not_p2sh h (Or.inl hlen)]
+  simp [hvw]
+
+/-- **P2SH-P2WPKH.**  scriptSig = the push of the redeem script `OP_0 <hash160 key>`, witness `[sig, key]`, against
+`HASH160 <hash160 redeem> EQUAL`; needs the P2SH and WITNESS flags. -/
+theorem C05_p2sh_p2wpkh_valid (chk : PChk) (sig key h hr : Bytes) (flags : Flags) (tx : TxCtx)
+    (hp : flags.p2sh = true) (hw : flags.witness = true)
+    (hh : Hash.hash160 key = h) (hlen : h.length = 20) (htrue : castToBool h = true)
+    (hhr : Hash.hash160 (witnessV0Script h) = hr) (hrlen : hr.length = 20)
+    (hs : sig.length ≤ 520) (hk : key.length ≤ 520)
+    (hsig : checkSignatureEncoding sig flags = none) (hkey : checkPubKeyEncoding key flags .witnessV0 = none)
+    (hchk : chk sig key (scriptCodeFor ⟨p2pkhScript h, flags, .witnessV0, tx⟩ ⟨[], [], [], 0, 0⟩ [sig]) .witnessV0 = true) :
+    verifyScript chk (pushesOf [witnessV0Script h]) (p2shScript hr) [sig, key] flags tx = none := by
+  have hrl : (witnessV0Script h).length = 22 := by simp [witnessV0Script, directPush, hlen]
+  unfold verifyScript verifyScriptM
+  have hpo : isPushOnly (pushesOf [witnessV0Script h]) = true :=
+    isPushOnly_pushes _ (by intro d hd; simp at hd; subst hd; omega)
+  have hpd : pushesOf [witnessV0Script h] = pushData (witnessV0Script h) := by
+    simp [pushesOf, directPush, pushData, hrl, OP_PUSHDATA1]
+  have hvw : verifyWitnessProgramM (m := Id) (fun a b c d => chk a b c d) [sig, key] 0 h flags tx = none :=
+    verifyWitnessProgram_keyhash chk sig key h flags tx hh hlen hs hk hsig hkey hchk
+  simp only [evalScriptM_id, hpo]
+  simp only [Id.run, bind, pure]
+  rw [evalScript_one_push chk (witnessV0Script h) flags tx (by omega) (by omega)]
+  simp only []
+  rw [evalScript_p2sh chk (witnessV0Script h) hr [] flags tx hhr hrlen (by simp)]
+  simp only [hw, hp, p2sh_not_witness hr hrlen, p2sh_is_p2sh hr hrlen, hpo]
+  simp only [castToBool]
+  rw [evalScript_witnessV0Script chk [] h flags tx (by omega) (by omega) (by simp)]
+  simp only [isWitnessProgram_v0 h (by omega) (by omega), htrue, hpd]
+  simp [hvw]
+
+
+/-- **P2PKH, from the model's own outputs.**  A canonical signature (what `signing_solver` emits, `C05_sig_canonical`) and the
+key `public_pair_to_sec` writes for the lookup entry, pushed the way `compile_push_data_list` pushes them, are accepted by the
+consensus specification under any flag set — in particular the full standard set when the hash type is one of the six
+standard ones, and the standard set without STRICTENC on fork-id coins. -/
+theorem C05_p2pkh_signed_valid (chk : PChk) (sig key h : Bytes) (ht : Nat) (x y : Int) (c : Bool) (flags : Flags) (tx : TxCtx)
+    (hkeyOf : publicPairToSec x y c = .ok key) (hh : Hash.hash160 key = h) (hlen : h.length = 20)
+    (hcan : Canonical ht sig) (hht : standardHashType ht ∨ flags.strictenc = false)
+    (hchk : chk sig key (scriptCodeFor ⟨p2pkhScript h, flags, .base, tx⟩ ⟨[], [], [], 0, 0⟩ [sig]) .base = true) :
+    ∃ scriptSig, pushAll [some sig, some key] = .ok scriptSig ∧
+      verifyScript chk scriptSig (p2pkhScript h) [] flags tx = none := by
+  obtain ⟨hk1, _, hk3⟩ := publicPairToSec_shape hkeyOf
+  obtain ⟨hs9, hs73⟩ := valid_sig_length hcan.1
+  refine ⟨pushesOf [sig, key], ?_, ?_⟩
+  · have := pushAll_direct [sig, key] (by intro d hd; simp at hd; rcases hd with rfl | rfl <;> omega)
+    simpa using this
+  · apply C05_p2pkh_valid chk sig key h flags tx hh hlen (by omega) (by omega) (by omega) (by omega)
+      (C05_sig_passes_encoding_checks hcan flags hht)
+    · unfold checkPubKeyEncoding; simp [hk1]
+    · exact hchk
+
+/-- **P2WPKH, from the model's own outputs** (compressed key, as witness programs require). -/
+theorem C05_p2wpkh_signed_valid (chk : PChk) (sig key h : Bytes) (ht : Nat) (x y : Int) (flags : Flags) (tx : TxCtx)
+    (hw : flags.witness = true)
+    (hkeyOf : publicPairToSec x y true = .ok key) (hh : Hash.hash160 key = h) (hlen : h.length = 20)
+    (htrue : castToBool h = true)
+    (hcan : Canonical ht sig) (hht : standardHashType ht ∨ flags.strictenc = false)
+    (hchk : chk sig key (scriptCodeFor ⟨p2pkhScript h, flags, .witnessV0, tx⟩ ⟨[], [], [], 0, 0⟩ [sig]) .witnessV0 = true) :
+    verifyScript chk [] (witnessV0Script h) [sig, key] flags tx = none := by
+  obtain ⟨hk1, hk2, hk3⟩ := publicPairToSec_shape hkeyOf
+  obtain ⟨hs9, hs73⟩ := valid_sig_length hcan.1
+  apply C05_p2wpkh_valid chk sig key h flags tx hw hh hlen htrue (by omega) (by omega)
+    (C05_sig_passes_encoding_checks hcan flags hht)
+  · unfold checkPubKeyEncoding; simp [hk1, hk2 rfl]
+  · exact hchk
+
+/-- the full standard policy flag set -/
+def standardFlags : Flags := Flags.ofBits 0xFFFF
+
+example : standardFlags.strictenc = true ∧ standardFlags.lowS = true ∧ standardFlags.cleanstack = true ∧
+    standardFlags.witness = true ∧ standardFlags.p2sh = true ∧ standardFlags.nullfail = true := by decide
 
 /-! ## frame -/
 
